@@ -15,7 +15,7 @@ LEVEL_NOTE = ("C20_partial: proved for 6 primitive pair functions + frame constr
 ASSUMPTIONS = ["hypotheses: non-coincident centres / unit plane normal / orthogonal rotation matrices, as produced by kinematics (C23)"]
 
 PAIRS = [("sphere", "sphere"), ("plane", "sphere"), ("sphere", "capsule"), ("plane", "ellipsoid"), ("sphere", "cylinder"), ("sphere", "box"), ("plane", "capsule"),
-         ("capsule", "capsule"), ("plane", "box"), ("plane", "cylinder"), ("capsule", "box")]
+         ("capsule", "capsule"), ("plane", "box"), ("plane", "cylinder"), ("capsule", "box"), ("capsule", "capsule")]
 
 
 def _size(rng, t):
@@ -29,6 +29,25 @@ def _size(rng, t):
 
 
 def _scene(rng, t1, t2):
+  if (t1, t2) == ("capsule", "capsule") and rng.random() < 0.7:
+    # end-to-end / L / V arrangements: the closest points are an END of each segment (both clamps of the segment-segment routine act)
+    r1, l1, r2, l2 = rng.uniform(.04, .1), rng.uniform(.15, .3), rng.uniform(.04, .1), rng.uniform(.15, .3)
+    ang = rng.uniform(0.3, 2.8)
+    d2 = np.array([np.sin(ang), 0.0, np.cos(ang)])                     # axis of capsule 2, capsule 1 along z
+    gapc = rng.uniform(-0.02, 0.03)
+    off = rng.normal(size=3); off -= off @ np.array([0, 0, 1.0]) * np.array([0, 0, 1.0]); off = off / (np.linalg.norm(off) + 1e-9)
+    e1 = np.array([0, 0, l1])                                          # top end of capsule 1
+    e2 = e1 + (0.6 * off + 0.8 * np.array([0, 0, 1.0])) / np.linalg.norm(0.6 * off + 0.8 * np.array([0, 0, 1.0])) * (r1 + r2 + gapc)
+    if d2[2] < 0:
+      d2 = -d2
+    c2 = e2 + d2 * l2                                                  # capsule 2 extends away from capsule 1
+    zax = d2; xax = np.cross([0, 1.0, 0], zax); xax /= np.linalg.norm(xax); yax = np.cross(zax, xax)
+    R = np.stack([xax, yax, zax], axis=1)
+    import mujoco
+    qq = np.zeros(4); mujoco.mju_mat2Quat(qq, R.reshape(-1))
+    return f"""<mujoco><worldbody><geom name="g1" type="capsule" size="{r1:.4f} {l1:.4f}"/>
+   <body pos="{c2[0]:.5f} {c2[1]:.5f} {c2[2]:.5f}" quat="{" ".join(f"{x:.6f}" for x in qq)}"><freejoint/><geom name="g2" type="capsule" size="{r2:.4f} {l2:.4f}" margin="0.05"/></body>
+  </worldbody></mujoco>"""
   q = rng.normal(size=4); q /= np.linalg.norm(q)
   q2 = rng.normal(size=4); q2 /= np.linalg.norm(q2)
   p2 = rng.normal(size=3) * 0.25
@@ -71,6 +90,30 @@ def _oracle(ctx, ncases):
       F = frame[k].astype(np.float64)
       if np.abs(F @ F.T - np.eye(3)).max() > 1e-4 or np.linalg.det(F) < 0.99:
         findings.append({"what": "contact frame is not a proper rotation", "site": f"collision {key}", "trigger_id": "frame", "xml": xml, "frame": F.tolist()})
+    # independent geometric check of the property itself (no reference implementation): for the deepest contact of a pair of convex
+    # geoms, dist must equal the gap between the two supporting planes orthogonal to the reported normal,
+    #   min_{x in g2} x.n - max_{x in g1} x.n   (support functions),
+    # and pos must lie midway between them along n
+    if n and t1 != "plane":
+      from harness.props.c04 import _support
+      kmin = int(np.argmin(dist))
+      nn = frame[kmin][0].astype(np.float64)
+      a, b = _support(mjm, mjd, 0, nn), _support(mjm, mjd, 1, -nn)
+      if a is not None and b is not None:
+        gap = -b - a
+        sc = float(mjm.geom_rbound[:2].min())
+        tolg = 3e-4 + 2e-3 * sc
+        # pairs with one closed-form closest point (anything against a sphere, capsule-capsule) are checked at any depth; for the
+        # multi-point routines (capsule-box, plane-X handled above, box pairs) a contact's dist is local to its point once the
+        # geoms interpenetrate deeply, so those are checked while shallow only
+        closed = "sphere" in (t1, t2) or (t1, t2) == ("capsule", "capsule")
+        if not closed and min(gap, float(dist[kmin])) < -0.25 * sc:
+          hist["deep-skipped"] = hist.get("deep-skipped", 0) + 1
+        elif abs(gap - float(dist[kmin])) > tolg:
+          findings.append({"what": f"{key}: reported dist {float(dist[kmin]):.6g} is not the separation {gap:.6g} of the two geoms along the reported normal", "site": f"collision {key}",
+                           "trigger_id": "dist-vs-normal", "xml": xml, "normal": nn.tolist()})
+        elif abs(float(pos[kmin].astype(np.float64) @ nn) - (a + (-b)) / 2) > tolg:
+          findings.append({"what": f"{key}: contact position is not midway between the two surfaces along the normal", "site": f"collision {key}", "trigger_id": "pos-midway", "xml": xml})
     # compare with MuJoCo
     mc = [(float(mjd.contact.dist[i]), mjd.contact.pos[i].copy(), mjd.contact.frame[i][:3].copy()) for i in range(mjd.ncon)]
     # contact-count parity is C04's business; here every MuJoCo contact must have a geometrically equal MJWarp contact
@@ -101,7 +144,8 @@ def correspondence(ctx):
                      ncases=192 if ctx.thorough else 48, seed=ctx.seed)
   evals, nontriv, samples, findings, hist = _oracle(ctx, 220 if ctx.thorough else 44)
   return {"evaluations": fc["evaluations"] + evals, "distinct_nontrivial": fc["distinct_outputs"] + nontriv,
-          "rule": "func-level: random float32 arguments (uniform/normal/special); scene-level: two-geom scenes cycling over 11 primitive pairs at random poses/sizes/margins, "
+          "rule": "func-level: random float32 arguments (uniform/normal/special); scene-level: two-geom scenes cycling over 11 primitive pairs (capsule-capsule twice) at random poses/sizes/margins, "
+                  "(capsule-capsule: half of the scenes end-to-end/L/V), deepest contact checked against the support-function gap along its own normal and the midway rule, "
                   "contacts compared with mujoco.mj_collision and frames checked for orthonormality; nontrivial = scenes with at least one contact",
           "samples": [fc["sample"]] + samples, "pair_hits": hist, "func_level": fc["functions"], "disagreements": fc["disagreements"], "findings": findings}
 
